@@ -43,6 +43,9 @@ def containment_guard(f):
         norm_ = ("normpath(" in t or "relpath(" in t)
         if both and pard and norm_ and ("startswith(" in t) and (" == " in t or "==" in t):
             return "contained", st
+        if "os.path.split(" in t and pard:
+            found = ("partial:all but the last two path components (os.path.split only separates head and tail)", st)
+            continue
         if both and pard and ".split(" in t and " in " in t:
             return "contained", st
         if both and ("commonpath(" in t):
@@ -72,7 +75,7 @@ def check(run):
         ok = kind == "contained"
         if kind and kind.startswith("partial"):
             run.ob("C29.R1", "%s:containment-guard-before-sinks" % remake.fq, False, run.site(remake, node),
-                   "the containment guard `%s` does not cover `%s`, which still reaches the filesystem sinks unchecked" % (unparse(node.test), kind.split(":")[1]))
+                   "the containment guard `%s` does not cover %s, which still reaches the filesystem sinks unchecked" % (unparse(node.test), kind.split(":", 1)[1]))
         else:
           run.ob("C29.R1", "%s:containment-guard-before-sinks" % remake.fq, ok, run.site(remake, node) if node is not None else run.site(remake),
                "" if ok else "name and base reach %d filesystem sinks through abspath(join(head, tail, base, name)) and only absoluteness is tested: "
@@ -111,6 +114,17 @@ def check(run):
         run.ob("C29.R1", "%s:removes-own-path-only:%s" % (clearp.fq, norm(c)), ok, run.site(clearp, c),
                "" if ok else "_clearPath removes `%s`, which is not the Filer's own path (or its directory)" % norm(a))
     run.floor("C29.R1", 8)
+    # R3 the old resource is released under the old configuration: reopen() closes/clears before it changes what _clearPath reads
+    reopen = ix.method(cls, "reopen")
+    reads = {dotted(n) for g in (clearp, ix.method(cls, "close")) for n in walk_local(g.node) if isinstance(n, ast.Attribute) and isinstance(n.ctx, ast.Load)
+             and dotted(n) and dotted(n).startswith("self.") and dotted(n).count(".") == 1}
+    closes = [n for n in walk_local(reopen.node) if isinstance(n, ast.Call) and method_call(n) == ("self", "close")]
+    early = [n for n in walk_local(reopen.node) if isinstance(n, ast.Assign) and dotted(n.targets[0]) in reads and closes and n.lineno < closes[0].lineno]
+    ok = bool(closes) and not early
+    run.ob("C29.R3", "%s:clears-before-reconfiguring" % reopen.fq, ok, run.site(reopen, early[0]) if early else run.site(reopen),
+           "" if ok else "reopen() assigns `%s` before self.close(clear=...): the old path is cleared under the new settings (a persistent file "
+           "Filer reopened with temp=True, clear=True removes its whole directory with sibling files)" % (unparse(early[0]) if early else None))
+    run.floor("C29.R3", 1)
     # R2 temp head removable
     mk = [n for n in walk_local(remake.node) if isinstance(n, ast.Assign) and isinstance(n.value, ast.Call) and dotted(n.value.func) == "tempfile.mkdtemp"]
     ok = bool(mk) and depth0
@@ -126,5 +140,7 @@ MUTANTS = [
     Mutant("containment-name-only", FL, "Filer.remake", "rel = os.path.normpath(os.path.join(base, name))", "rel = os.path.normpath(name)", {"C29.R1"}),
     Mutant("clearpath-removes-headdir", FL, "Filer._clearPath", "                shutil.rmtree(self.path)  # remove trailing dir of path (and all below)", "                shutil.rmtree(self.headDirPath)", {"C29.R1"}, canary=True),
     Mutant("path-not-normalised", FL, "Filer.remake", "            path = os.path.abspath(\n                                os.path.join(headDirPath,\n                                             tailDirPath,\n                                             base,\n                                             name))", "            path = os.path.join(headDirPath, tailDirPath, base, name)", {"C29.R1"}),
+    Mutant("guard-ospath-split", FL, "Filer.remake", "if rel == os.pardir or rel.startswith(os.pardir + os.sep):", "if os.pardir in os.path.split(rel):", {"C29.R1"}),
+    Mutant("reopen-close-after-config", FL, "Filer.reopen", "        self.close(clear=clear)\n\n        if temp is not None:\n            self.temp = temp\n", "        if temp is not None:\n            self.temp = temp\n        self.close(clear=clear)\n", {"C29.R3"}),
     Mutant("silent-segments-idiom", FL, "Filer.remake", "        rel = os.path.normpath(os.path.join(base, name))  # collapse any .. segments\n        if rel == os.pardir or rel.startswith(os.pardir + os.sep):", "        rel = os.path.join(base, name)\n        if os.pardir in rel.split(os.sep):", silent=True),
 ]
